@@ -201,9 +201,11 @@ package ociauth
 //@ invariant (*stdTransport) self != nil && self.registries != nil && self.transport != nil && self.config != nil
 //@ invariant (*stdTransport) forall h string :: in(self.registries, h) ==> self.registries[h] != nil && self.registries[h].host == h
 //@ invariant (*registry) self != nil && self.transport != nil && self.config != nil
-// The challenge a record remembers is one its host issued (isChallenge marks
-// what challengeFromResponse parsed out of a response).
-//@ pure func isChallenge(h *authHeader) bool
+// The challenge a record remembers is one its host issued, and of a scheme
+// this client implements: Basic or Bearer (what challengeFromResponse selects
+// out of a response; proved below). A parsed header's scheme never changes.
+//@ immutable authHeader.scheme, authHeader.params
+//@ pure func isChallenge(h *authHeader) bool = h != nil && (h.scheme == "basic" || h.scheme == "bearer")
 //@ invariant (*registry) self.wwwAuthenticate != nil ==> isChallenge(self.wwwAuthenticate)
 //@ invariant (*registry) forall i int :: 0 <= i && i < len(self.accessTokens) ==> self.accessTokens[i] != nil
 //@ immutable scopedToken.scope, scopedToken.token, scopedToken.expires
@@ -279,6 +281,8 @@ package ociauth
 //@     (result == nil ==> hdr(req.Header, "Authorization") == "Bearer " + calls[2].result.0)
 //@   ensures[basic-only-after-a-non-bearer-challenge] accessToken#0 == nil && old(r.wwwAuthenticate) != nil && old(r.wwwAuthenticate.scheme) != "bearer" ==>
 //@     ncallsOf("acquireAccessToken") == 0 && (old(r.basic) != nil ==> hdr(req.Header, "Authorization") == basicAuth(old(r.basic.username), old(r.basic.password)))
+//@   ensures[password-as-basic-only-after-a-basic-challenge] accessToken#0 == nil && ncallsOf("acquireAccessToken") == 0 &&
+//@     hdr(req.Header, "Authorization") != old(hdr(req.Header, "Authorization")) ==> old(r.wwwAuthenticate) != nil && old(r.wwwAuthenticate.scheme) == "basic"
 //@   ensures[challenge-untouched] r.wwwAuthenticate == old(r.wwwAuthenticate)
 
 // Answering a challenge: it is remembered; a Bearer challenge is answered with
@@ -298,6 +302,8 @@ package ociauth
 //@     result.0 == (old(r.basic) != nil) &&
 //@     (old(r.basic) != nil ==> hdr(req.Header, "Authorization") == basicAuth(old(r.basic.username), old(r.basic.password))) &&
 //@     (old(r.basic) == nil ==> hdr(req.Header, "Authorization") == old(hdr(req.Header, "Authorization")))
+//@   ensures[password-as-basic-only-to-a-basic-challenge] ncalls() == 0 && hdr(req.Header, "Authorization") != old(hdr(req.Header, "Authorization")) ==>
+//@     old(challenge.scheme) == "basic"
 
 // init reads the configured credentials of this record's own host, once.
 //@ func (*registry).init
@@ -322,6 +328,12 @@ package ociauth
 //@   requires req != nil && req.URL != nil && req.Header != nil
 //@   ensures[record-of-the-request-host] r != nil ==> r.host == old(req.URL.Host)
 //@   ensures[at-most-two-attempts] ncallsOf("RoundTrip") <= 2
+//@   ensures[unsent-body-is-closed] ncallsOf("RoundTrip") == 0 && old(req.Body) != nil ==> closed(old(req.Body))
+// (the underlying transport closes the body of a request it is handed:
+// net/http's RoundTripper contract; so a body obtained from GetBody must be
+// handed to it, or it is never closed)
+//@   ensures[a-rewound-body-is-sent] ncallsOf("GetBody") <= 1 &&
+//@     (ncallsOf("GetBody") == 1 && calls[lastOf("GetBody")].result.1 == nil ==> ncallsAfter("GetBody", "RoundTrip") == 1)
 //@   ensures[fresh-token-unauthorized-becomes-forbidden] result.1 == nil && result.0 != nil && authAdded && tokenAcquired ==> result.0.StatusCode != 401
 
 // Assumed interface contract of the underlying transport (net/http's): a nil
@@ -329,11 +341,16 @@ package ociauth
 //@ iface-ensures RoundTripper.RoundTrip(req) result.1 == nil ==> result.0 != nil && result.0.Body != nil && result.0.Header != nil
 //@ func NewStdTransport
 //@   ensures result != nil
+// Challenge selection: only a Basic or a Bearer challenge is ever selected,
+// whatever else the header list contains (unknown schemes, malformed values).
 //@ func challengeFromResponse
-//@   trusted
 //@   modifies nothing
 //@   requires resp != nil
-//@   ensures[marks-what-it-parsed] result != nil ==> isChallenge(result)
+//@   loop 0 invariant h == nil || isChallenge(h)
+//@   ensures[only-basic-or-bearer-is-selected] result != nil ==> isChallenge(result)
+//@ func parseWWWAuthenticate
+//@   trusted
+//@   modifies nothing
 
 // ---------------------------------------------------------------------------
 // C09 (continued): containment, stated on the representation. s1 contains s2
